@@ -318,6 +318,10 @@ func runC13(r *fw.Runner) {
 				labelled{act + "/missing-uris", map[string]interface{}{"action": act}, false},
 				labelled{act + "/duplicate", mk("did:example:a", "did:example:b", "did:example:a"), false},
 				labelled{act + "/duplicate-adjacent", mk("https://a.example", "https://a.example"), false},
+				labelled{act + "/duplicate-non-ascii-path", mk("https://example.com/jürgen", "did:example:x", "https://example.com/jürgen"), false},
+				labelled{act + "/duplicate-space-in-path", mk("https://example.com/a b", "https://example.com/a b"), false},
+				labelled{act + "/duplicate-upper-case-scheme", mk("HTTPS://example.com/x", "HTTPS://example.com/x"), false},
+				labelled{act + "/non-ascii-path-once", mk("https://example.com/jürgen", "https://example.com/juergen"), true},
 				labelled{act + "/bad-escape-1st", mk("https://a.example/%zz", "did:example:b"), false},
 				labelled{act + "/bad-escape-2nd", mk("did:example:b", "https://a.example/%zz"), false},
 				labelled{act + "/bad-escape-3rd", mk("did:example:b", "did:example:c", "https://a.example/%zz"), false},
